@@ -367,6 +367,26 @@ pub fn generate(tier: Tier, rng: &mut Rng) -> Vec<Case> {
             }
         }
     }
+    // macro calls as operands of && / || chains and of conditionals, left of failing and logging
+    // operands: a macro is an operand like any other and keeps its place (the model decides)
+    {
+        let macros = ["[1, 2].exists(x, lt(x))", "[1, 2].all(x, lf(x))", "[1, 2].exists(x, x == 2)", "[1, 2].all(x, x > 0)", "[1].map(x, lt(x))[0]", "[1, 2].filter(x, lt(x)).size() == 2", "[1, 2].exists_one(x, lt(x))", "has(m.k)", "![1].all(x, lt(x))"];
+        let others = ["fail(20)", "lt(21)", "lf(22)", "1 / 0 > 0", "undeclared", "m.k", "true", "false"];
+        for mac in macros {
+            for o in others {
+                for src in [
+                    format!("{mac} || {o}"), format!("{mac} && {o}"), format!("{o} || {mac}"), format!("{o} && {mac}"), format!("{mac} || {o} || lt(23)"), format!("lt(24) && {mac} && {o}"), format!("{mac} ? {o} : lt(25)"),
+                    format!("{o} ? {mac} : lf(26)"), format!("[1].all(y, {mac} || {o})"), format!("({mac} && {o}) || ({mac} || {o})"),
+                ] {
+                    if let Some(mut c) = eval_case_from_src(&spec, &src) {
+                        c.tags = vec!["macro-operand", "skips"];
+                        c.src = Some(src);
+                        out.push(c);
+                    }
+                }
+            }
+        }
+    }
     // the conditional a macro generates: `map(x, guard, transform)` evaluates the transform only for
     // elements the guard accepts, and after the guard (the model decides)
     for guard in ["false", "true", "x > 0", "lf(1)", "lt(1)", "x != 0 && lt(2)", "lf(3) || x > 0", "fail(4)", "x == 0 ? lf(5) : lt(6)"] {
